@@ -4,6 +4,10 @@ optimized rendering *is* the canonical optimized form `Spec.Pack.optimized` (rig
 namespace Impl.Pack
 open VC Core Impl.Value Spec.Pack Spec.Value
 
+/-- `iter_comb` is annotation-blind in the source read now (C17's repair) -/
+theorem consults_false : consults = false := by decide
+theorem sourceOk_true : Impl.Pack.sourceOk = true := by decide
+
 theorem excl_facts : excluded "big_map" = true ∧ excluded "ticket" = true ∧ excluded "sapling_state" = true ∧
     excluded "operation" = true := by decide
 
